@@ -17,6 +17,7 @@ type Case struct {
 	Entry   string   `json:"entry"`   // "path": kit.NewJapi(root path); "mem": kit.NewJApiFromFile(root bytes), INCLUDEs from disk
 	Faults  []Fault  `json:"faults,omitempty"`
 	Expect  *Expect  `json:"expect,omitempty"` // fault-located expectation (C07c)
+	Prior   int      `json:"prior,omitempty"`  // sim-disk engines: this many damaged older versions of the same project are built first, at the same paths, in the same process and pool session
 
 	History []Step    `json:"history,omitempty"` // C16: accessor calls with environment changes
 	Reps    []Rep     `json:"reps,omitempty"`    // C06: repetitions of the same build under different environments
